@@ -205,6 +205,36 @@ func TestGvcReplay(t *testing.T) {
 	}
 }
 `}})
+	clauseScenarios = append(clauseScenarios,
+		clauseScenario{"v3.(*Executor).setupFuzzyModel", "fuzzyModel", scenario{pkgRel: "", what: "an unknown task name never gets a did-you-mean suggestion",
+			src: gvcHeader + `
+func TestGvcReplay(t *testing.T) {
+	dir := t.TempDir()
+	gvcWrite(t, dir, "Taskfile.yml", "version: '3'\ntasks:\n  build:\n    cmds: [\"echo hi\"]\n")
+	var out bytes.Buffer
+	err := gvcExec(t, dir, &out).Run(context.Background(), &task.Call{Task: "biuld"})
+	if err == nil || !strings.Contains(err.Error(), "build") {
+		t.Fatalf("GVC-REPLAY-REPRODUCED: running the unknown task \"biuld\" next to task \"build\" gave no suggestion: %v", err)
+	}
+}
+`}},
+		clauseScenario{"ast.(*Task).WildcardMatch", "", scenario{pkgRel: "taskfile/ast", what: "a task name with regular-expression metacharacters is not matched literally (or panics)",
+			src: `package ast
+
+import "testing"
+
+func TestGvcReplay(t *testing.T) {
+	defer func() {
+		if r := recover(); r != nil {
+			t.Fatalf("GVC-REPLAY-REPRODUCED: WildcardMatch panics for a task named \"a(\": %v", r)
+		}
+	}()
+	if ok, _ := (&Task{Task: "x.y*"}).WildcardMatch("xzyQ"); ok {
+		t.Fatalf("GVC-REPLAY-REPRODUCED: pattern \"x.y*\" matched \"xzyQ\": '.' was treated as a regular-expression wildcard")
+	}
+	(&Task{Task: "a("}).WildcardMatch("a(")
+}
+`}})
 	clauseScenarios = append(clauseScenarios, clauseScenario{"fingerprint.(*TimestampChecker).OnError", "stampPath", scenario{pkgRel: "", what: "method timestamp: a failed run leaves the stamp file, the next run reports the task up to date",
 		src: gvcHeader + `
 func TestGvcReplay(t *testing.T) {
